@@ -288,8 +288,9 @@ class StmtMixin:
             for r, t0, s0 in self.ev(n.test, bs, fx):
                 if r == "ok":
                     t = t0
-                    # keep evaluation side effects (lookups) of the first outcome only
-                    bs.events = s0.events
+                    # keep the state of the first outcome only (the test may inline calls, which rebind the frame)
+                    for slot in ("env", "heap", "events", "conds", "facts", "stack", "hits", "frames"):
+                        setattr(bs, slot, getattr(s0, slot))
                     break
             bs.conds = bs.conds + (Cond(t, True, fx.func.file, n.lineno, ast.unparse(n.test)),)
             self.assume(t, True, bs)
